@@ -426,7 +426,7 @@ def judge_run(case, run, root, out):
                 break
         if ent is None and ents:
             ent = ents[0]
-        effect = dict(form="?", expected="none", got="none", nS="")
+        effect = dict(form="?", expected="none", got="none", nS="", order="")
         sites = all_sites
         if ent is None:
             effect["expected"] = "unreached"
@@ -445,6 +445,8 @@ def judge_run(case, run, root, out):
                     f = w.probe(path) or (os.path.normpath(path) if os.path.isfile(os.path.normpath(path)) else None)
                     if f and os.path.realpath(f) == gp:
                         effect["got"] = k
+                        if idx is not None and ent["sidx"] is not None:
+                            effect["order"] = "later-dir" if idx > ent["sidx"] else "earlier-dir"
                         break
             if form == "angle" and run["noangles"]:
                 form = "angle+noangles"
@@ -569,6 +571,8 @@ def _key(case, run, v):
         k = "wrong-file:tool=%s,form=%s,expected=%s,got=%s" % (tool, e["form"], e["expected"], e["got"])
         if e.get("nS"):
             k += ",nS=" + e["nS"]
+        if e.get("order"):
+            k += ",taken=" + e["order"]
         return k
     if v["cat"] == "tool-failed":
         return "tool-failed:tool=%s,how=%s,msg=%s,cause=%s" % (tool, e["how"], e["msg"], "+".join(causes) or "-")
@@ -829,10 +833,12 @@ def _minimise1(ctx, case, ri, cat):
         budget[0] -= 1
         try:
             rs = _run_tree_once(ctx, c, "m%d" % budget[0])
-        except Exception:
+        except core.HarnessError:
             # e.g. the shared build being relinked under us: no verdict from a disturbed reduction
             raise _Disturbed()
-        if rs[0][3]:
+        except Exception:
+            return None            # the reduction step produced a case the machinery cannot run: step refused
+        if rs[0][3] == "timeout":
             raise _Disturbed()
         for v in rs[0][0]:
             if v["cat"] == cat:
@@ -1288,6 +1294,8 @@ def main(chk):
     for i in range(ntrees):
         sub = "%d.%d" % (chk.seed, i)
         cases.append(treegen.gen_case(sub))
+    for i in range(chk.pick(30, 300)):
+        cases.append(treegen.gen_case("o%d.%d" % (chk.seed, i), focus="order"))
     # Filename harness: exhaustive up to 4 (quick) / 6 (thorough) components, plus a seeded sample of longer ones
     maxlen = chk.pick(4, 6)
     nchunks = chk.pick(2, 24)
@@ -1301,7 +1309,7 @@ def main(chk):
     for k in range(chk.pick(1, 4)):
         cases.append(dict(kind="fname", id="fn-symlink-%d" % k, variant="symlink",
                           paths=dict(mode="exhaustive", maxlen=chk.pick(4, 5), chunk=k, nchunks=chk.pick(1, 4))))
-    chk.extra["trees"] = ntrees
+    chk.extra["trees"] = ntrees + chk.pick(30, 300)
     chk.extra["path_string_bound"] = maxlen
     chk.exhaustive = False
     chk.min_conclusive = 10
